@@ -3,10 +3,18 @@ EXTENDS Dnssec
 MCZoneKinds == {"signed", "signed-same", "insecure", "optout", "nsec3"}
 MCQKinds == {"a", "cname", "wild", "nodata", "nx", "dname"}
 SigBreak == {"data", "sigbytes", "signer", "expired"}
-MCTampers ==
-  {<<"none", "none">>}
-  \cup {<<"referral", k>> : k \in SigBreak \cup {"strip", "dropds", "swapds", "dropproof", "foreignproof"}}
-  \cup {<<"dnskey", k>> : k \in SigBreak \cup {"strip", "clonetag"}}
-  \cup {<<"answer", k>> : k \in SigBreak \cup {"labels", "notyet", "strip", "dropproof", "foreignproof", "inject"}}
+KindsAt(pos) ==
+  CASE pos = "referral" -> SigBreak \cup {"strip", "dropds", "swapds", "dropproof", "foreignproof"}
+    [] pos = "dnskey"   -> SigBreak \cup {"strip", "clonetag"}
+    [] pos = "answer"   -> SigBreak \cup {"labels", "notyet", "strip", "dropproof", "foreignproof", "inject"}
+Untouched == [pos \in Positions |-> "none"]
+Single == {[Untouched EXCEPT ![pos] = k] : pos \in Positions, k \in SigBreak \cup {"strip", "dropds", "swapds", "dropproof",
+              "foreignproof", "clonetag", "labels", "notyet", "inject"}}
+SingleOK == {t \in Single : \A pos \in Positions : t[pos] = "none" \/ t[pos] \in KindsAt(pos)}
+MCTampers == {Untouched} \cup SingleOK
+\* pairs: one tampering at each of two different positions
+MCTamperPairs == {t \in [Positions -> UNION {KindsAt(p) : p \in Positions} \cup {"none"}] :
+                    /\ \A pos \in Positions : t[pos] = "none" \/ t[pos] \in KindsAt(pos)
+                    /\ Cardinality({pos \in Positions : t[pos] # "none"}) = 2}
 MCFlags == [do : BOOLEAN, ad : BOOLEAN, cd : BOOLEAN]
 =============================================================================
